@@ -76,7 +76,7 @@ type seqOp struct {
 	IfFound  string  `json:"iff"` // compute callback: write | inv | cancel | panic | ""
 	IfAbsent string  `json:"ifa"`
 	Ld       string  `json:"ld"`    // single loader outcome: val | err | nf | nfw | panic | ""
-	Shape    string  `json:"shape"` // bulk loader: map | nil | err | panic | ""
+	Shape    string  `json:"shape"` // bulk loader: map | nil | err | errnf | panic | ""
 	Dt       int64   `json:"dt"`    // SaveLoad: clock offset between save and load (units)
 	Max2     int64   `json:"max2"`  // SaveLoad: target maximum (0 = same as source)
 }
@@ -401,6 +401,9 @@ func (l seqBulkLoader) outcome() (map[int]int, error) {
 		return nil, nil
 	case "err":
 		return m, errSeqLoad
+	case "errnf":
+		// a failure that merely wraps the not-found sentinel is still a failure of the whole bulk call
+		return m, fmt.Errorf("verif: backend said: %w", ErrNotFound)
 	case "panic":
 		panic("verif: scripted bulk loader panic")
 	}
